@@ -1,0 +1,38 @@
+// SPDX-FileCopyrightText: 2026 The Pion community <https://pion.ly>
+// SPDX-License-Identifier: MIT
+
+//go:build verif
+
+package rtpdump
+
+import "time"
+
+// Spec functions and verified harnesses for the contract-based verification in
+// /verif (build tag verif).
+
+// specEncodable: what one rtpdump record can hold without wrapping a header
+// field — at most 65527 payload bytes (the 16-bit length field counts the 8-byte
+// record header) and a non-negative offset below 2^32 milliseconds.
+func specEncodable(p Packet) bool {
+	return len(p.Payload) <= 65527 && p.Offset >= 0 && p.Offset/time.Millisecond <= 4294967295
+}
+
+// specRepresentable: what round-trips exactly — additionally a non-empty
+// payload and a whole number of milliseconds (the property's quantifier).
+func specRepresentable(p Packet) bool {
+	return specEncodable(p) && len(p.Payload) >= 1 && p.Offset%time.Millisecond == 0
+}
+
+// specRoundTripPacket composes the real encoder and the real decoder; its
+// contract is the round-trip clause of the property. It is verified modularly,
+// i.e. against the contracts of Marshal and Unmarshal, not their bodies.
+func specRoundTripPacket(p Packet) (Packet, error) {
+	data, err := p.Marshal()
+	if err != nil {
+		return Packet{}, err
+	}
+	var q Packet
+	err = q.Unmarshal(data)
+
+	return q, err
+}
